@@ -27,7 +27,7 @@ func init() {
 		},
 		Strata: []fw.Stratum{
 			{Name: "all-sequences-len<=2", N: fw.Const(c05ExhaustiveCount, c05ExhaustiveCount), Run: c05Exhaustive, Exhaustive: true},
-			{Name: "random-sequences", N: fw.Const(120000, 12000000), Run: c05Random},
+			{Name: "random-sequences", N: fw.Const(600000, 15000000), Run: c05Random},
 		},
 	})
 }
